@@ -194,15 +194,15 @@ def encoder_selftest(run, pr, roots, rebuild, model, timeout_s, nat=None):
     import random
     ctx = run.ctx
     rnd = random.Random(int(os.environ.get("VERIF_SEED", "0") or 0) + 12345)
-    vectors = [("model", concretize(run, model))]
-    for tag in ("rand", "max", "rand2"):
+    vectors = [("model", concretize(run, model))] if model else []
+    for tag in ("rand", "max", "rand2", "min"):
         env = {}
         for name, (layout, limbs, p) in run.inputs.items():
             for x in limbs:
                 if x.is_const(): continue
                 (m, c), = x.t.items(); v = m[0]
                 lo, hi = ctx.bounds[v] if v in ctx.bounds else (0, 0)
-                env[v] = hi if tag == "max" else rnd.randint(lo, hi)
+                env[v] = hi if tag == "max" else (lo if tag == "min" else rnd.randint(lo, hi))
         ok = True
         for a in ctx.assume:
             try:
@@ -210,6 +210,10 @@ def encoder_selftest(run, pr, roots, rebuild, model, timeout_s, nat=None):
             except KeyError: ok = False
         if ok: vectors.append((tag, env))
     res = dict(ok=True, vectors=[], method="shadow execution: constraint system evaluated under concrete digit values")
+    if not vectors:
+        for env in candidate_vectors(run, 64)[:2]: vectors.append(("candidate", env))
+    if not vectors:
+        res["ok"] = False; res["why"] = "no admissible input vector found (assumptions may be unsatisfiable)"; return res
     for tag, env in vectors:
         try:
             rc, gc, oc = rebuild(concrete=env)
@@ -272,11 +276,15 @@ def discharge(rep, run, name, goals, roots, config, fn, bounds_note, timeout_s=6
         rec["zero_lemmas"] = len([l for l in lem if l[1] == "unsat"])
         # obligations recorded during execution (panic edges)
         for desc, cond, path in run.it.obligations:
-            goals = list(goals) + [("no-panic: " + desc, cond)]
-        vac = pr.check(Cond("const", True), timeout_s=timeout_s, split=False)
-        rec["vacuity_witness"] = vac[0]
+            goals = [("no-panic: " + desc, cond)] + list(goals)
         status = "ok"
-        if vac[0] != "sat": status = "inconclusive"; rec["why"] = "path/assumption constraints not shown satisfiable: " + vac[0]
+        if selftest is not None:
+            vac = ("constructive (shadow execution of an admissible vector satisfies every constraint)", None)
+            rec["vacuity_witness"] = vac[0]
+        else:
+            vac = pr.check(Cond("const", True), timeout_s=timeout_s, split=False)
+            rec["vacuity_witness"] = vac[0]
+            if vac[0] != "sat": status = "inconclusive"; rec["why"] = "path/assumption constraints not shown satisfiable: " + vac[0]
         # encoder self-test (translator validation, DESIGN 5.2): the constraint system must admit the concrete
         # execution of sampled input vectors and force exactly the concretely computed outputs
         if selftest is not None and status == "ok":
@@ -287,8 +295,20 @@ def discharge(rep, run, name, goals, roots, config, fn, bounds_note, timeout_s=6
                 rec["goals"].append(dict(goal="no panic on admissible inputs (checked build)", verdict="sat", solver_s=0.0, cases=1, solver_calls=0,
                                          model=st["panic_witness"]["inputs"], replay=dict(llsym_concrete="panic: " + st["panic_witness"]["panic"]), reproduced=True))
             elif not st["ok"]: status = "inconclusive"; rec["why"] = "encoder self-test failed: " + st.get("why", "")
-        for gname, viol in goals:
-            v, model, dt, info = pr.check(viol, timeout_s=timeout_s, also=solvers_also)
+        for gent in goals:
+            gname, viol = gent[0], gent[1]
+            light = len(gent) > 3 and gent[3].get("light")
+            v, model, dt, info = pr.check(viol, timeout_s=timeout_s, also=solvers_also, light=bool(light))
+            if light and v != "unsat":
+                # the reduced constraint set (digit range constraints dropped) is only a sound shortcut for unsat
+                v, model, dt2, info = pr.check(viol, timeout_s=timeout_s, also=solvers_also); dt += dt2
+            if v == "unsat" and len(gent) > 2 and gent[2] is not None:
+                # a proven lemma with a derived fact (e.g. congruence => exact equation with a fresh multiplier):
+                # the fact is added to the constraint system for the goals that follow
+                gent[2](run.ctx)
+                pr2 = smt.Problem(run.ctx); pr2.zero = set(pr.zero)
+                pr2.var_elim = pr2.var_elim + [e for e in pr.var_elim if e not in pr2.var_elim]
+                pr = pr2
             g = dict(goal=gname, verdict=v, solver_s=round(dt, 3), **info)
             if v == "sat":
                 env = concretize(run, model)
